@@ -51,7 +51,41 @@ definition mirrors (under /repo/libs/core/include/fcppt/ unless noted):
 * `parseSequence`, `parseRepetition` — /repo/libs/parse/include/fcppt/parse/sequence_impl.hpp + detail/sequence_result.hpp, repetition_impl.hpp:
                          the sub-results are moved into the tuple / vector (no arguments: every value is made by the user's converter)
 
-The user's functions (part of the harness, see harness/c05.cpp): given an rvalue they move it
+Extension rounds (166 operations in all):
+
+* `callAt`, `zipCall2`  — functions of two arguments: `optional::apply` / `maybe_multi` / `maybe_void_multi`, `either::apply`, `variant::apply`,
+                         `grid::apply`, `array::apply` hand *both* arguments on with `move_if_rvalue<Arg_k>`; the harness function `both` keeps
+                         what it gets, so the value category of every argument is observed on its own (`tuple::apply`: `tuple::get` has no
+                         rvalue overload, the function always gets lvalues; its first tuple has to be an rvalue - `apply_result` applies
+                         `tuple::size` to the reference type); `optional::combine` has a fixed result type: the harness function `sink_second`
+                         consumes the second argument (`sinkAt`)
+* `tupInvoke` … `recInit` — tuple/invoke.hpp, apply.hpp, from_array.hpp, make.hpp, init.hpp, array/apply.hpp, init.hpp, make.hpp,
+                         record/object_impl.hpp + detail/init_ctor.hpp (the vararg constructor from `label = value` initializers), record/init.hpp;
+                         `recSet` — record/set.hpp
+* `optMake` … `optCopyValue` — optional/make.hpp, object_impl.hpp (constructors), assign.hpp (rvalue only), to_exception.hpp, make_if.hpp, maybe.hpp,
+                         maybe_void.hpp, maybe_multi.hpp, maybe_void_multi.hpp, copy_value.hpp
+* `eithMakeSuccess` … `eithLoop`, `varCtor` — either/make_success.hpp, make_failure.hpp, object_impl.hpp, construct.hpp, try_call.hpp, to_exception.hpp,
+                         error_from_optional.hpp, sequence_error.hpp (through fold_break), loop.hpp; variant/object_impl.hpp
+* `algFindOpt` … `algSeqIteration(Vec)` — algorithm/find_opt.hpp, index_of.hpp, contains.hpp (the value may alias an element: `find_opt(v, v[k])`),
+                         find_if_opt.hpp, find_by_opt.hpp, generate_n.hpp, map_iteration.hpp, map_iteration_second.hpp, sequence_iteration.hpp
+                         (`std::list`: nodes are erased; `std::vector`: `erase` move-assigns the later elements - `shift`)
+* `compact`            — algorithm/remove_if.hpp, unique_if.hpp (+ remove.hpp, unique.hpp): libstdc++'s `std::remove_if` / `std::unique` followed by
+                         `erase(position, end)`
+* `contInsert` … `contIndexMapGet` — container/insert.hpp, set_union.hpp, set_difference.hpp, set_intersection.hpp (also with the same set twice),
+                         map_values_copy.hpp, at_optional.hpp, maybe_back.hpp, maybe_front.hpp, find_opt_mapped.hpp, index_map_impl.hpp
+* `treeCtorTree` … `treeSortPred` — container/tree/object_impl.hpp: copy / move / (value, child list) constructors, copy / move / self assignment,
+                         `value(T const &)` / `value(T &&)`, push_front, insert (value and tree), pop_back, pop_front, erase (one, range), clear,
+                         sort (both), swap
+* `gridCtorFn` … `gridFill` — container/grid/object_impl.hpp (constructors from a function, a value, static rows (rvalue rows only), a grid;
+                         copy / move / self assignment), static_row.hpp, fill.hpp
+* `joinSelf` … `optCombineSelf` — the same lvalue object as both arguments
+* `algMapList`, `algMapArr`, `algMapTup`, `algLoopBreakTuple` — algorithm/map_impl.hpp without `reserve`, map_array.hpp, map_tuple.hpp, loop_break_tuple.hpp
+* `parseAlt` … `parseRepPlus` — /repo/libs/parse: alternative_impl.hpp, optional_impl.hpp, convert_impl.hpp, as_struct.hpp, separator_impl.hpp,
+                         list_impl.hpp, repetition_plus_impl.hpp (after fix aef45df the first result is moved)
+* `optsArgument` … `optsSum` — /repo/libs/options: argument_impl.hpp, optional_impl.hpp, product_impl.hpp (options::apply), many_impl.hpp, sum_impl.hpp:
+                         the result records are moved through the combinators
+
+The user's functions (part of the harness, see harness/c05_common.hpp): given an rvalue they move it
 through (same identity), given an lvalue they read it and make a new value (`derive`).
 -/
 namespace Fcppt.C05
@@ -68,6 +102,30 @@ inductive Op where
   | recMap | recPermute | recMultiplyDisjoint | contMake
   | gridMap | gridApply2 | gridResize | treeCtor | treePushValue | treePushTree | treeRelease | treeMap
   | optsFlag | optsOption | parseSequence | parseRepetition
+  -- extension round 1: tuple / array / record
+  | tupInvoke | tupApply2 | tupFromArray | tupMake2 | tupInit | arrApply2 | arrInit | arrMake2 | recCtor2 | recInit
+  -- optional / either / variant
+  | optMake | optCtor | optAssign | optToException | optMakeIf | optMaybe | optMaybeVoid | optMaybeMulti2 | optMaybeVoidMulti2
+  | optCopyValue
+  | eithMakeSuccess | eithMakeFailure | eithCtor | eithConstruct | eithTryCall | eithToException | eithErrorFromOptional
+  | eithSequenceError | eithLoop | varCtor
+  -- extension round 2: algorithm / container helpers
+  | algFindOpt | algIndexOf | algContains | algFindIfOpt | algFindByOpt | algGenerateN
+  | algMapIteration | algMapIterationSecond | algSeqIteration
+  | contInsert | contSetUnion | contSetDifference | contSetIntersection | contMapValuesCopy
+  | contAtOptional | contMaybeBack | contMaybeFront | contFindOptMapped | contIndexMapGet
+  -- tree / grid members
+  | treeCtorTree | treeCtorChildren | treeAssign | treeSelfAssign | treeSetValue
+  | treePushFrontValue | treeInsertValue | treePushFrontTree | treeInsertTree | treePopBack | treePopFront
+  | treeErase | treeEraseRange | treeClear | treeSort
+  | gridCtorFn | gridCtorValue | gridCtorRows2 | gridStaticRow2 | gridCtorGrid | gridAssign | gridSelfAssign | gridFill
+  -- extension round 3: parse results / options results moved through the combinators
+  | parseAlt | parseOpt | parseConvert | parseAsStruct | parseSeparator | parseList | parseRepPlus
+  | optsArgument | optsOptional | optsProduct | optsMany | optsSum
+  -- extension round 4: the same object twice, other container kinds, swap, record::set
+  | treeSwap | treeSortPred | joinSelf | arrJoinSelf | tupConcatSelf | optCombineSelf
+  | algMapList | algMapArr | algMapTup | algLoopBreakTuple | recSet
+  | algRemoveIf | algRemove | algUnique | algUniqueIf | algSeqIterationVec
   deriving DecidableEq, Repr, Inhabited
 
 /-- Arguments (value category, element identities in container order) and the operation's
@@ -104,6 +162,47 @@ def whole (rv : Bool) (a n : Nat) (d : Dest) : List Instr :=
 
 /-- the user's function (or the library) reads every element -/
 def readAll (a n : Nat) : List Instr := (List.range n).map fun i => .read a i
+
+/-- the user's function gets element `i` of argument `a` as `move_if_rvalue<Arg>(element)`: an rvalue is moved through, an lvalue derived from -/
+def callAt (rv : Bool) (a i : Nat) (d : Dest) : Instr := if rv then .xfer a i .move d else .derive a i 1 d
+
+/-- a function of two arguments is called position by position with `(move_if_rvalue<A0>(x_i), move_if_rvalue<A1>(y_i))`;
+the harness function hands both on (`both`: the result holds what it got from the first, then from the second argument) -/
+def zipCall2 (rv0 rv1 : Bool) (n : Nat) (d : Dest) : List Instr :=
+  (List.range n).flatMap fun i => [callAt rv0 0 i d, callAt rv1 1 i d]
+
+/-- what the harness function `sink_second` does with its second argument: an rvalue is moved into a local that dies, an lvalue is read -/
+def sinkAt (rv : Bool) (a i : Nat) : Instr := if rv then .xfer a i .move .drop else .read a i
+
+/-- `map_iteration` / `sequence_iteration` (node containers): the user's action reads every element; answer 0 = remove: `erase(it)` -/
+def iterErase (a : Nat) (mask : List Nat) : List Instr :=
+  (List.range mask.length).flatMap fun i => .read a i :: (if mask[i]? = some 0 then [.pop a i .drop] else [])
+
+/-- `sequence_iteration` on a `std::vector`: `erase(it)` move-assigns every later element one place down -/
+def iterEraseVec (a : Nat) (mask : List Nat) : List Instr :=
+  (List.range mask.length).flatMap fun i =>
+    .read a i :: (if mask[i]? = some 0 then
+      .pop a i .drop :: ((List.range (mask.length - (i + 1))).map fun j => .shift a (i + 1 + j)) else [])
+
+/-- `erase(first, last)` / `clear()` of a node container: the elements `lo .. hi-1` are destroyed in place -/
+def eraseRange (a lo hi : Nat) : List Instr := (List.range (hi - lo)).map fun j => .pop a (lo + j) .drop
+
+/-- `grid::fill`: every cell is overwritten with what the user's function makes -/
+def fillAll (a n : Nat) : List Instr := (List.range n).flatMap fun i => [.pop a i .drop, .fresh (1000 + i) (.arg a)]
+
+/-- `std::remove_if` / `std::unique` followed by `erase(position, end)` on a sequence (mask: 1 = keep, 0 = remove): the predicate reads
+the elements up to the first one to go; every later element is read and, when kept, move-assigned to an earlier place; the elements to
+go are overwritten or erased -/
+def compact (a : Nat) (mask : List Nat) : List Instr :=
+  match mask.findIdx? (· == 0) with
+  | none => readAll a mask.length
+  | some f =>
+    readAll a (f + 1) ++
+      ((List.range (mask.length - (f + 1))).flatMap fun j =>
+        .read a (f + 1 + j) :: (if mask[f + 1 + j]? = some 1 then [.shift a (f + 1 + j)] else [])) ++
+      ((List.range mask.length).filter fun i => mask[i]? == some 0).map fun i => .pop a i .drop
+
+def freshRange (n : Nat) (d : Dest) : List Instr := (List.range n).map fun j => .fresh (1000 + j) d
 
 /-- the listed elements of `a`, in this order (`record::permute`) -/
 def gather (a : Nat) (idx : List Nat) (m : Mode) (d : Dest) : List Instr := idx.map fun i => .xfer a i m d
@@ -161,8 +260,8 @@ def prog (o : Op) (inp : Input) : List Instr :=
   | .optCombine =>
     if n 0 = 0 then xferAll 1 (n 1) (fwd (rv 1)) .res
     else if n 1 = 0 then xferAll 0 (n 0) (fwd (rv 0)) .res
-    else readAll 1 (n 1) ++ callAll (rv 0) 0 (n 0) .res
-  | .optApply2 => if n 0 = 0 ∨ n 1 = 0 then [] else readAll 1 (n 1) ++ callAll (rv 0) 0 (n 0) .res
+    else [sinkAt (rv 1) 1 0, callAt (rv 0) 0 0 .res]
+  | .optApply2 => if n 0 = 0 ∨ n 1 = 0 then [] else zipCall2 (rv 0) (rv 1) 1 .res
   | .optSequence =>
     -- par = presence mask of the entries; the argument lists the elements of the present ones
     if inp.par.all (· == 1) then xferAll 0 (n 0) (fwd (rv 0)) .res else []
@@ -185,7 +284,7 @@ def prog (o : Op) (inp : Input) : List Instr :=
   | .eithApply2 =>
     -- par = [side of the first, side of the second]
     if par0 = 1 then
-      (if par1 = 1 then readAll 1 (n 1) ++ callAll (rv 0) 0 (n 0) .res else xferAll 1 (n 1) (fwd (rv 1)) .res)
+      (if par1 = 1 then zipCall2 (rv 0) (rv 1) 1 .res else xferAll 1 (n 1) (fwd (rv 1)) .res)
     else
       xferAll 0 (n 0) (fwd (rv 0)) .res ++ (if par1 = 1 then [] else xferAll 1 (n 1) (fwd (rv 1)) .drop)
   | .eithSequence =>
@@ -200,7 +299,7 @@ def prog (o : Op) (inp : Input) : List Instr :=
     | none => (List.range inp.par.length).map fun j => .fresh (1000 + j) .res
   -- variant<T, w1<T>, w2<T>>: the argument is the element held, par0 the alternative
   | .varMatch | .varApply => callAll (rv 0) 0 (n 0) .res
-  | .varApply2 => readAll 1 (n 1) ++ callAll (rv 0) 0 (n 0) .res
+  | .varApply2 => zipCall2 (rv 0) (rv 1) 1 .res
   | .varToOptional => if par0 = par1 then xferAll 0 (n 0) (fwd (rv 0)) .res else []
   -- tuples, arrays, records: one element object per position
   | .tupMap | .arrMap | .recMap => callAll (rv 0) 0 (n 0) .res
@@ -213,7 +312,7 @@ def prog (o : Op) (inp : Input) : List Instr :=
   -- grids: par = [w, h, …] (storage order: x fastest)
   | .gridMap => callAll (rv 0) 0 (n 0) .res
   | .gridApply2 =>
-    if par0 = par2 ∧ par1 = par3 then readAll 1 (n 1) ++ callAll (rv 0) 0 (n 0) .res else []
+    if par0 = par2 ∧ par1 = par3 then zipCall2 (rv 0) (rv 1) (n 0) .res else []
   | .gridResize => (List.range (par2 * par3)).map (gridCell (rv 0) par0 par1 par2)
   -- trees: the argument is the root value followed by the (leaf) children
   | .treeCtor => xferAll 0 (n 0) (fwd (rv 0)) .res
@@ -225,6 +324,118 @@ def prog (o : Op) (inp : Input) : List Instr :=
   | .parseSequence =>
     if 2 ≤ par0 then [.fresh 1000 .res, .fresh 1001 .res] else if par0 = 1 then [.fresh 1000 .drop] else []
   | .parseRepetition => (List.range par0).map fun j => .fresh (1000 + j) .res
+  -- tuple::invoke: `std::apply(f, move_if_rvalue<Tuple>(t.impl()))` - every element reaches the function with the tuple's category
+  | .tupInvoke => callAll (rv 0) 0 (n 0) .res
+  -- tuple::apply: `tuple::get` has no rvalue overload, so the function gets an lvalue (`T &` / `T const &`) for every category
+  | .tupApply2 => zipCall2 false false (n 0) .res
+  | .arrApply2 => zipCall2 (rv 0) (rv 1) (n 0) .res
+  | .tupFromArray => xferAll 0 (n 0) (fwd (rv 0)) .res
+  -- tuple::make / array::make / the record constructor with two (scalar) arguments, each forwarded
+  | .tupMake2 | .arrMake2 | .recCtor2 => xferAll 0 (n 0) (fwd (rv 0)) .res ++ xferAll 1 (n 1) (fwd (rv 1)) .res
+  -- init: every element is made by the user's function
+  | .tupInit | .arrInit | .recInit => freshRange par0 .res
+  -- optional
+  | .optMake | .optCtor | .optCopyValue => xferAll 0 (n 0) (fwd (rv 0)) .res
+  | .optAssign =>
+    -- `_optional = optional(std::forward<Arg>(_arg))`: the old content is overwritten, the new one moved in
+    (if n 0 = 0 then [] else [.pop 0 0 .drop]) ++ [.xfer 1 0 .move (.arg 0)]
+  | .optToException => xferAll 0 (n 0) (fwd (rv 0)) .res
+  | .optMakeIf => if par0 = 1 then [.fresh 1000 .res] else []
+  | .optMaybe => if n 0 = 0 then [.fresh 1000 .res] else callAll (rv 0) 0 (n 0) .res
+  | .optMaybeVoid => callAll (rv 0) 0 (n 0) .res
+  | .optMaybeMulti2 => if n 0 = 0 ∨ n 1 = 0 then [.fresh 1000 .res] else zipCall2 (rv 0) (rv 1) 1 .res
+  | .optMaybeVoidMulti2 => if n 0 = 0 ∨ n 1 = 0 then [] else zipCall2 (rv 0) (rv 1) 1 .res
+  -- either / variant constructors
+  | .eithMakeSuccess | .eithMakeFailure | .eithCtor | .varCtor => xferAll 0 (n 0) (fwd (rv 0)) .res
+  | .eithConstruct | .eithTryCall => if par0 = 1 then [.fresh 1000 .res] else [.fresh 1001 .res]
+  -- to_exception: the success is returned, the failure handed to the user's `make_exception` (which keeps it in the exception)
+  | .eithToException => if par0 = 1 then xferAll 0 (n 0) (fwd (rv 0)) .res else callAll (rv 0) 0 (n 0) .res
+  | .eithErrorFromOptional => xferAll 0 (n 0) (fwd (rv 0)) .res
+  | .eithSequenceError =>
+    -- par = what the user's function answers per element (1 = no_error after reading it, 0 = a failure that takes the element)
+    match inp.par.findIdx? (· == 0) with
+    | some k => readAll 0 k ++ [callAt (rv 0) 0 k .res]
+    | none => readAll 0 (n 0)
+  -- either::loop: par0 successes (each moved into the user's `loop` function, which keeps them), then the failure
+  | .eithLoop => freshRange (par0 + 1) .res
+  -- algorithm::find_opt / index_of / contains: `std::find`; par0 = k: the value looked for is element k of the range itself
+  -- (`find_opt(v, v[k])`), k = size: it is the separate object of argument 1, equal to no element
+  | .algFindOpt | .algIndexOf | .algContains => if par0 < n 0 then readAll 0 (par0 + 1) else readAll 0 (n 0) ++ [.read 1 0]
+  -- find_if_opt: the predicate answers true at element par0
+  | .algFindIfOpt => readAll 0 (min (n 0) (par0 + 1))
+  -- find_by_opt: the user's function reads every element and answers with an optional holding a value derived from element par0
+  | .algFindByOpt => deriveEach 0 ((List.replicate par0 0 ++ [1]).take (n 0)) .res
+  | .algGenerateN => freshRange par0 .res
+  | .algMapIteration | .algMapIterationSecond | .algSeqIteration => iterErase 0 inp.par
+  -- container::insert into a map: par0 = index of the key among the keys present (size: a new key)
+  | .contInsert => if par0 < n 0 then [] else xferAll 1 (n 1) (fwd (rv 1)) (.arg 0)
+  -- set_union / set_difference / set_intersection take `Set const &`: elements are copied; par0 = 1: both arguments are the same set
+  | .contSetUnion => xferAll 0 (n 0) .copy .res ++ (if par0 = 1 then [] else xferAll 1 (n 1) .copy .res)
+  | .contSetDifference => if par0 = 1 then [] else xferAll 0 (n 0) .copy .res
+  | .contSetIntersection => if par0 = 1 then xferAll 0 (n 0) .copy .res else []
+  | .contMapValuesCopy => xferAll 0 (n 0) .copy .res
+  -- at_optional / maybe_back / maybe_front / find_opt_mapped return (optional) references: no element is touched
+  | .contAtOptional | .contMaybeBack | .contMaybeFront | .contFindOptMapped => []
+  -- index_map::get(index, insert): `push_back(insert())` until the index exists
+  | .contIndexMapGet => freshRange (par0 + 1 - n 0) (.arg 0)
+  -- tree: argument 0 = the value of the root, argument 1 = the children (their subtrees in pre-order)
+  | .treeCtorTree | .treeCtorChildren =>
+    if rv 0 then [.xfer 0 0 .move .res, .steal 1 .res] else .xfer 0 0 .copy .res :: xferAll 1 (n 1) .copy .res
+  | .treeAssign =>
+    -- target = arguments 0 / 1, source = arguments 2 / 3: `value_ = other.value_; children_ = copy/move_children(other.children_)`
+    [.pop 0 0 .drop, .xfer 2 0 (fwd (rv 2)) (.arg 0), .steal 1 .drop] ++
+      (if rv 2 then [.steal 3 (.arg 1)] else xferAll 3 (n 3) .copy (.arg 1))
+  | .treeSelfAssign => []
+  | .treeSetValue => [.pop 0 0 .drop, .xfer 1 0 (fwd (rv 1)) (.arg 0)]
+  | .treePushFrontValue | .treeInsertValue | .treePushFrontTree | .treeInsertTree => xferAll 1 (n 1) (fwd (rv 1)) (.arg 0)
+  | .treePopBack => if n 0 ≤ 1 then [] else [.pop 0 (n 0 - 1) .res]
+  | .treePopFront => if n 0 ≤ 1 then [] else [.pop 0 1 .res]
+  | .treeErase => eraseRange 0 (par0 + 1) (par0 + 2)
+  | .treeEraseRange => eraseRange 0 (par0 + 1) (par1 + 1)
+  | .treeClear => eraseRange 0 1 (n 0)
+  | .treeSort => readAll 0 (n 0)
+  -- grid constructors: from a function, from one value (copied into every cell), from static rows, from a grid
+  | .gridCtorFn => freshRange (par0 * par1) .res
+  | .gridCtorValue => (List.range (par0 * par1)).map fun _ => .xfer 0 0 .copy .res
+  | .gridCtorRows2 | .gridStaticRow2 => xferAll 0 (n 0) (fwd (rv 0)) .res ++ xferAll 1 (n 1) (fwd (rv 1)) .res
+  | .gridCtorGrid => whole (rv 0) 0 (n 0) .res
+  | .gridAssign => .steal 0 .drop :: (if rv 1 then [.steal 1 (.arg 0)] else xferAll 1 (n 1) .copy (.arg 0))
+  | .gridSelfAssign => []
+  | .gridFill => fillAll 0 (n 0)
+  -- parse / options: no arguments, every value is made by the user's converter (parse) or read from the command line (options::argument)
+  -- and then *moved* through the combinators: `-p`, convert, argument, options::optional - par0 = 1: the input matches
+  | .parseOpt | .parseConvert | .optsArgument | .optsOptional => if par0 = 1 then [.fresh 1000 .res] else []
+  -- `a | b`: par0 = 0: the left alternative matches, 1: the right one, 2: none
+  | .parseAlt => if par0 ≤ 1 then [.fresh 1000 .res] else []
+  -- as_struct(a >> b) / options::apply (product) of two arguments: par0 = how many of the two inputs are there; a first value
+  -- without the second is destroyed
+  | .parseAsStruct | .optsProduct =>
+    if 2 ≤ par0 then [.fresh 1000 .res, .fresh 1001 .res] else if par0 = 1 then [.fresh 1000 .drop] else []
+  | .parseSeparator | .parseList | .parseRepPlus | .optsMany => freshRange par0 .res
+  -- options sum (left = a product of two arguments | right = one argument): par0 = 0: two arguments are given, the left parser
+  -- takes them; 1: one argument is given, the left parser fails after reading it (its value is destroyed), the right one reads it again
+  -- tree::swap: `std::swap` of the two root values (three moves), the child lists change owner (argument 3 is the empty scratch
+  -- list that stands for "at the same time")
+  | .treeSwap => [.swap 0 0 1, .steal 1 (.arg 3), .steal 2 (.arg 1), .steal 3 (.arg 2)]
+  | .treeSortPred => readAll 0 (n 0)
+  -- the same lvalue object as both arguments: join(a, a), array::join(a, a), tuple::concat(t, t): every element is copied twice
+  | .joinSelf | .arrJoinSelf | .tupConcatSelf => xferAll 0 (n 0) .copy .res ++ xferAll 0 (n 0) .copy .res
+  -- optional::combine(o, o, f): the function reads its second argument and derives from the first - the same object
+  | .optCombineSelf => if n 0 = 0 then [] else [.read 0 0, .derive 0 0 1 .res]
+  -- algorithm::map with a list source and a deque target (no reserve), array -> array (map_array.hpp), tuple -> tuple (map_tuple.hpp)
+  | .algMapList | .algMapArr | .algMapTup => callAll (rv 0) 0 (n 0) .res
+  -- algorithm::loop_break over a tuple (loop_break_tuple.hpp): the body reads the elements and breaks at element par0
+  | .algLoopBreakTuple => readAll 0 (min (n 0) (par0 + 1))
+  -- record::set<Label>(record, value): element par0 is overwritten
+  | .recSet => [.pop 0 par0 .drop, .xfer 1 0 (fwd (rv 1)) (.arg 0)]
+  -- remove_if / unique_if: par = what the predicate answers per element (0 = remove; for unique_if: 0 = "equal to the element kept last")
+  | .algRemoveIf | .algUniqueIf => compact 0 inp.par
+  -- remove(container, value): the value is captured by copy; the tokens are pairwise different, so nothing is removed
+  | .algRemove => .xfer 1 0 .copy .drop :: readAll 0 (n 0)
+  -- unique with operator==: pairwise different tokens, nothing is removed
+  | .algUnique => readAll 0 (n 0)
+  | .algSeqIterationVec => iterEraseVec 0 inp.par
+  | .optsSum => if par0 = 0 then [.fresh 1000 .res, .fresh 1001 .res] else [.fresh 1000 .drop, .fresh 1000 .res]
 
 def jn (b : Bool) : String := if b then "J" else "N"
 def sf (b : Bool) : String := if b then "S" else "F"
@@ -260,6 +471,40 @@ def tag (o : Op) (inp : Input) : String :=
   | .arrFromRange => jn (inp.par.headD 0 == inp.size 0)
   | .parseSequence => sf (2 ≤ inp.par.headD 0)
   | .parseRepetition => "S"
+  | .optMake | .optCtor => "J"
+  | .optCopyValue | .eithErrorFromOptional => jn (inp.size 0 == 1)
+  | .optAssign => match inp.ids 1 with | x :: _ => s!"R{x}" | [] => "R?"
+  | .optToException => if inp.size 0 == 1 then "-" else "exc"
+  | .optMakeIf => jn (inp.par.headD 0 == 1)
+  | .eithMakeSuccess => "S"
+  | .eithMakeFailure => "F"
+  | .eithCtor | .eithConstruct | .eithTryCall => sf (inp.par.headD 0 == 1)
+  | .eithToException => if inp.par.headD 0 == 1 then "-" else "exc"
+  | .eithSequenceError => sf (inp.par.all (· == 1))
+  | .varCtor => s!"A{inp.par.headD 0}"
+  | .algFindOpt | .algFindIfOpt => match (inp.ids 0)[inp.par.headD 0]? with | some x => s!"J{x}" | none => "N"
+  | .algIndexOf => if inp.par.headD 0 < inp.size 0 then s!"J{inp.par.headD 0}" else "N"
+  | .algContains => if inp.par.headD 0 < inp.size 0 then "1" else "0"
+  | .contInsert => if inp.par.headD 0 < inp.size 0 then "I0" else "I1"
+  | .algFindByOpt => jn (inp.par.headD 0 < inp.size 0)
+  | .algMapIteration | .algMapIterationSecond | .algSeqIteration => "-"
+  | .contAtOptional | .contFindOptMapped => match (inp.ids 0)[inp.par.headD 0]? with | some x => s!"R{x}" | none => "N"
+  | .contMaybeBack => match (inp.ids 0).getLast? with | some x => s!"R{x}" | none => "N"
+  | .contMaybeFront => match (inp.ids 0).head? with | some x => s!"R{x}" | none => "N"
+  | .contIndexMapGet =>
+    match (inp.ids 0)[inp.par.headD 0]? with | some x => s!"R{x}" | none => s!"R{1000 + (inp.par.headD 0 - inp.size 0)}"
+  | .treePopBack | .treePopFront => jn (decide (1 < inp.size 0))
+  | .parseOpt => jn (inp.par.headD 0 == 1)
+  | .optsOptional => if inp.par.headD 0 == 1 then "SJ" else "SN"
+  | .parseConvert | .optsArgument => sf (inp.par.headD 0 == 1)
+  | .parseAlt => sf (decide (inp.par.headD 0 ≤ 1))
+  | .parseAsStruct | .optsProduct => sf (decide (2 ≤ inp.par.headD 0))
+  | .parseSeparator | .parseList | .optsMany => "S"
+  | .parseRepPlus => sf (decide (1 ≤ inp.par.headD 0))
+  | .optsSum => if inp.par.headD 0 == 0 then "L" else "R"
+  | .optCombineSelf => jn (inp.size 0 == 1)
+  | .algRemoveIf => if inp.par.any (· == 0) then "1" else "0"
+  | .algRemove => "0"
   | _ => "-"
 
 /-! ## well-formed inputs -/
@@ -330,7 +575,7 @@ def shapeOk (o : Op) (inp : Input) : Bool :=
   | .tupMap | .arrMap => inp.args.length == 1 && catIn inp 0 anyCat && inp.par.isEmpty
   | .recMap => inp.args.length == 1 && catIn inp 0 [.rv] && inp.par.isEmpty
   | .tupPushBack => inp.args.length == 2 && catIn inp 0 anyCat && catIn inp 1 anyCat && n 1 == 1 && inp.par.isEmpty
-  | .tupConcat => inp.args.length == 2 && catIn inp 0 [.rv] && catIn inp 1 [.rv] && inp.par.isEmpty
+  | .tupConcat => inp.args.length == 2 && catIn inp 0 anyCat && catIn inp 1 anyCat && inp.par.isEmpty
   | .arrPushBack => inp.args.length == 2 && catIn inp 0 anyCat && catIn inp 1 anyCat && n 1 == 1 && inp.par.isEmpty
   | .arrJoin2 => inp.args.length == 2 && catIn inp 0 anyCat && catIn inp 1 anyCat && inp.par.isEmpty
   | .arrJoin3 => inp.args.length == 3 && catIn inp 0 anyCat && catIn inp 1 anyCat && catIn inp 2 anyCat && inp.par.isEmpty
@@ -355,6 +600,90 @@ def shapeOk (o : Op) (inp : Input) : Bool :=
   | .optsOption => inp.args.length == 1 && catIn inp 0 [.rv] && n 0 ≤ 1 && inp.par.isEmpty
   | .parseSequence => inp.args.length == 0 && inp.par.length == 1 && inp.par.headD 0 ≤ 2
   | .parseRepetition => inp.args.length == 0 && inp.par.length == 1
+  | .tupInvoke | .tupFromArray => inp.args.length == 1 && catIn inp 0 anyCat && inp.par.isEmpty
+  | .tupApply2 => inp.args.length == 2 && catIn inp 0 [.rv] && catIn inp 1 anyCat && n 0 == n 1 && inp.par.isEmpty
+  | .arrApply2 => inp.args.length == 2 && catIn inp 0 anyCat && catIn inp 1 anyCat && n 0 == n 1 && inp.par.isEmpty
+  | .tupMake2 | .arrMake2 => inp.args.length == 2 && catIn inp 0 anyCat && catIn inp 1 anyCat && n 0 == 1 && n 1 == 1 && inp.par.isEmpty
+  | .recCtor2 =>
+    -- par = [order]: 0 = the initializers are given in label order, 1 = swapped
+    inp.args.length == 2 && catIn inp 0 anyCat && catIn inp 1 anyCat && n 0 == 1 && n 1 == 1 && inp.par.length == 1 && inp.par.headD 0 ≤ 1
+  | .tupInit | .arrInit | .recInit | .eithLoop => inp.args.length == 0 && inp.par.length == 1
+  | .optMake | .optCtor => inp.args.length == 1 && catIn inp 0 anyCat && n 0 == 1 && inp.par.isEmpty
+  | .optCopyValue => inp.args.length == 1 && catIn inp 0 [.lv, .cr] && n 0 ≤ 1 && inp.par.isEmpty
+  | .optAssign => inp.args.length == 2 && catIn inp 0 [.io] && catIn inp 1 [.rv] && n 0 ≤ 1 && n 1 == 1 && inp.par.isEmpty
+  | .optToException | .optMaybe | .optMaybeVoid | .eithErrorFromOptional =>
+    inp.args.length == 1 && catIn inp 0 anyCat && n 0 ≤ 1 && inp.par.isEmpty
+  | .optMakeIf | .eithConstruct | .eithTryCall => inp.args.length == 0 && inp.par.length == 1 && inp.par.headD 0 ≤ 1
+  | .optMaybeMulti2 | .optMaybeVoidMulti2 =>
+    inp.args.length == 2 && catIn inp 0 anyCat && catIn inp 1 anyCat && n 0 ≤ 1 && n 1 ≤ 1 && inp.par.isEmpty
+  | .eithMakeSuccess | .eithMakeFailure => inp.args.length == 1 && catIn inp 0 anyCat && n 0 == 1 && inp.par.isEmpty
+  | .eithCtor | .eithToException =>
+    inp.args.length == 1 && catIn inp 0 anyCat && n 0 == 1 && inp.par.length == 1 && inp.par.headD 0 ≤ 1
+  | .varCtor => inp.args.length == 1 && catIn inp 0 anyCat && n 0 == 1 && inp.par.length == 1 && inp.par.headD 0 ≤ 2
+  | .eithSequenceError => inp.args.length == 1 && catIn inp 0 anyCat && inp.par.length == n 0 && inp.par.all (· ≤ 1)
+  | .algFindOpt | .algIndexOf | .algContains =>
+    inp.args.length == 2 && catIn inp 0 [.lv, .cr] && catIn inp 1 [.cr] && n 1 == 1 && inp.par.length == 1 && inp.par.headD 0 ≤ n 0
+  | .algFindIfOpt | .algFindByOpt => inp.args.length == 1 && catIn inp 0 [.lv, .cr] && inp.par.length == 1 && inp.par.headD 0 ≤ n 0
+  | .algGenerateN => inp.args.length == 0 && inp.par.length == 1
+  | .algMapIteration | .algMapIterationSecond | .algSeqIteration =>
+    inp.args.length == 1 && catIn inp 0 [.io] && inp.par.length == n 0 && inp.par.all (· ≤ 1)
+  | .contInsert =>
+    inp.args.length == 2 && catIn inp 0 [.io] && catIn inp 1 anyCat && n 1 == 1 && inp.par.length == 1 && inp.par.headD 0 ≤ n 0
+  | .contSetUnion | .contSetDifference | .contSetIntersection =>
+    inp.args.length == 2 && catIn inp 0 [.lv, .cr] && catIn inp 1 [.lv, .cr] && inp.par.length == 1 && inp.par.headD 0 ≤ 1 &&
+      (inp.par.headD 0 == 0 || n 1 == 0)
+  | .contMapValuesCopy => inp.args.length == 1 && catIn inp 0 [.lv, .cr] && inp.par.isEmpty
+  | .contAtOptional | .contFindOptMapped => inp.args.length == 1 && catIn inp 0 [.lv, .cr] && inp.par.length == 1 && inp.par.headD 0 ≤ n 0
+  | .contMaybeBack | .contMaybeFront => inp.args.length == 1 && catIn inp 0 [.lv, .cr] && inp.par.isEmpty
+  | .contIndexMapGet => inp.args.length == 1 && catIn inp 0 [.io] && inp.par.length == 1
+  | .treeCtorTree =>
+    inp.args.length == 2 && catIn inp 0 anyCat && catIn inp 1 anyCat && inp.cat 0 == inp.cat 1 && n 0 == 1 && inp.par.isEmpty
+  | .treeCtorChildren => inp.args.length == 2 && catIn inp 0 [.rv] && catIn inp 1 [.rv] && n 0 == 1 && inp.par.isEmpty
+  | .treeAssign =>
+    inp.args.length == 4 && catIn inp 0 [.io] && catIn inp 1 [.io] && catIn inp 2 anyCat && catIn inp 3 anyCat &&
+      inp.cat 2 == inp.cat 3 && n 0 == 1 && n 2 == 1 && inp.par.isEmpty
+  | .treeSelfAssign =>
+    -- par = [0: copy assignment, 1: move assignment]
+    inp.args.length == 2 && catIn inp 0 [.io] && catIn inp 1 [.io] && n 0 == 1 && inp.par.length == 1 && inp.par.headD 0 ≤ 1
+  | .treeSetValue => inp.args.length == 2 && catIn inp 0 [.io] && catIn inp 1 anyCat && n 0 == 1 && n 1 == 1 && inp.par.isEmpty
+  | .treePushFrontValue => inp.args.length == 2 && catIn inp 0 [.io] && catIn inp 1 anyCat && 1 ≤ n 0 && n 1 == 1 && inp.par.isEmpty
+  | .treeInsertValue =>
+    inp.args.length == 2 && catIn inp 0 [.io] && catIn inp 1 anyCat && 1 ≤ n 0 && n 1 == 1 && inp.par.length == 1 && inp.par.headD 0 < n 0
+  | .treePushFrontTree => inp.args.length == 2 && catIn inp 0 [.io] && catIn inp 1 [.rv] && 1 ≤ n 0 && n 1 == 1 && inp.par.isEmpty
+  | .treeInsertTree =>
+    inp.args.length == 2 && catIn inp 0 [.io] && catIn inp 1 [.rv] && 1 ≤ n 0 && n 1 == 1 && inp.par.length == 1 && inp.par.headD 0 < n 0
+  | .treePopBack | .treePopFront | .treeClear | .treeSort => inp.args.length == 1 && catIn inp 0 [.io] && 1 ≤ n 0 && inp.par.isEmpty
+  | .treeErase => inp.args.length == 1 && catIn inp 0 [.io] && inp.par.length == 1 && inp.par.headD 0 + 1 < n 0
+  | .treeEraseRange =>
+    inp.args.length == 1 && catIn inp 0 [.io] && inp.par.length == 2 && inp.par.headD 0 ≤ (inp.par.drop 1).headD 0 &&
+      (inp.par.drop 1).headD 0 < n 0
+  | .gridCtorFn => inp.args.length == 0 && inp.par.length == 2
+  | .gridCtorValue => inp.args.length == 1 && catIn inp 0 [.cr] && n 0 == 1 && inp.par.length == 2
+  | .gridCtorRows2 => inp.args.length == 2 && catIn inp 0 [.rv] && catIn inp 1 [.rv] && n 0 == n 1 && 1 ≤ n 0 && inp.par.isEmpty
+  | .gridStaticRow2 => inp.args.length == 2 && catIn inp 0 anyCat && catIn inp 1 anyCat && n 0 == 1 && n 1 == 1 && inp.par.isEmpty
+  | .gridCtorGrid => inp.args.length == 1 && catIn inp 0 anyCat && inp.par.length == 2 && inp.par.headD 0 * (inp.par.drop 1).headD 0 == n 0
+  | .gridAssign => inp.args.length == 2 && catIn inp 0 [.io] && catIn inp 1 anyCat && inp.par.isEmpty
+  | .gridSelfAssign =>
+    inp.args.length == 1 && catIn inp 0 [.io] && inp.par.length == 1 && inp.par.headD 0 ≤ 1
+  | .gridFill => inp.args.length == 1 && catIn inp 0 [.io] && inp.par.isEmpty
+  | .parseOpt | .parseConvert | .optsArgument | .optsOptional | .optsSum => inp.args.length == 0 && inp.par.length == 1 && inp.par.headD 0 ≤ 1
+  | .parseAlt | .parseAsStruct | .optsProduct => inp.args.length == 0 && inp.par.length == 1 && inp.par.headD 0 ≤ 2
+  | .parseSeparator | .parseList | .parseRepPlus | .optsMany => inp.args.length == 0 && inp.par.length == 1
+  | .algRemoveIf | .algSeqIterationVec => inp.args.length == 1 && catIn inp 0 [.io] && inp.par.length == n 0 && inp.par.all (· ≤ 1)
+  | .algUniqueIf =>
+    inp.args.length == 1 && catIn inp 0 [.io] && inp.par.length == n 0 && inp.par.all (· ≤ 1) && inp.par.headD 1 == 1
+  | .algUnique => inp.args.length == 1 && catIn inp 0 [.io] && inp.par.isEmpty
+  | .algRemove => inp.args.length == 2 && catIn inp 0 [.io] && catIn inp 1 [.cr] && n 1 == 1 && inp.par.isEmpty
+  | .treeSwap =>
+    inp.args.length == 4 && catIn inp 0 [.io] && catIn inp 1 [.io] && catIn inp 2 [.io] && catIn inp 3 [.io] && n 0 == 2 && n 3 == 0 &&
+      inp.par.isEmpty
+  | .treeSortPred => inp.args.length == 1 && catIn inp 0 [.io] && 1 ≤ n 0 && inp.par.isEmpty
+  | .joinSelf | .arrJoinSelf | .tupConcatSelf => inp.args.length == 1 && catIn inp 0 [.lv, .cr] && inp.par.isEmpty
+  | .optCombineSelf => inp.args.length == 1 && catIn inp 0 [.lv, .cr] && n 0 ≤ 1 && inp.par.isEmpty
+  | .algMapList | .algMapArr | .algMapTup => inp.args.length == 1 && catIn inp 0 anyCat && inp.par.isEmpty
+  | .algLoopBreakTuple => inp.args.length == 1 && catIn inp 0 anyCat && inp.par.length == 1 && inp.par.headD 0 ≤ n 0
+  | .recSet =>
+    inp.args.length == 2 && catIn inp 0 [.io] && catIn inp 1 anyCat && n 1 == 1 && inp.par.length == 1 && inp.par.headD 0 < n 0
 
 def wf (o : Op) (inp : Input) : Bool := idsOk inp && shapeOk o inp
 
@@ -367,7 +696,14 @@ def keeps (o : Op) (inp : Input) (a : Nat) : Bool :=
   | .reverse | .join2 | .join3 | .tupPushBack | .tupConcat | .arrPushBack | .arrJoin2 | .arrJoin3
   | .recPermute | .recMultiplyDisjoint | .contMake | .optsFlag | .optsOption | .treeCtor
   | .optJoin | .optCat | .optToContainer | .optFrom | .optAlt | .eithJoin | .eithMap | .eithMapFailure | .eithFromOptional
-  | .eithBind | .moveIf | .moveIfRvalue => true
+  | .eithBind | .moveIf | .moveIfRvalue
+  | .tupInvoke | .tupFromArray | .tupMake2 | .arrMake2 | .recCtor2 | .arrApply2
+  | .optMake | .optCtor | .optToException | .optMaybe | .optMaybeVoid
+  | .eithMakeSuccess | .eithMakeFailure | .eithCtor | .eithToException | .eithErrorFromOptional | .varCtor
+  | .algMapList | .algMapArr | .algMapTup
+  | .varApply2 | .treeCtorTree | .treeCtorChildren | .gridCtorRows2 | .gridStaticRow2 | .gridCtorGrid => true
+  | .optApply2 | .optMaybeMulti2 | .optMaybeVoidMulti2 => inp.size 0 == 1 && inp.size 1 == 1
+  | .gridApply2 => inp.par.headD 0 == (inp.par.drop 2).headD 0 && (inp.par.drop 1).headD 0 == (inp.par.drop 3).headD 0
   | .fold | .foldBreak => a == 1
   | .optSequence | .eithSequence => inp.par.all (· == 1)
   | .arrFromRange => inp.par.headD 0 == inp.size 0
@@ -377,7 +713,9 @@ def keeps (o : Op) (inp : Input) (a : Nat) : Bool :=
 /-- the operations whose program destroys values it took or made (a second failure in `either::apply`, the failures before the
 first success in `first_success`, a half-parsed sequence, the emptied `move_range`) -/
 def drops : Op → Bool
-  | .eithApply2 | .eithFirstSuccess | .parseSequence | .moveRangeMap => true
+  | .eithApply2 | .eithFirstSuccess | .parseSequence | .moveRangeMap | .optCombine | .optAssign
+  | .algMapIteration | .algMapIterationSecond | .algSeqIteration | .treeAssign | .treeSetValue | .treeErase | .treeEraseRange | .treeClear
+  | .gridAssign | .gridFill | .parseAsStruct | .optsProduct | .optsSum | .recSet | .algRemoveIf | .algUniqueIf | .algRemove | .algSeqIterationVec => true
   | _ => false
 
 /-! ## the programs of three repaired defects, kept for the refuted examples in Props/C05.lean -/
@@ -391,6 +729,10 @@ def oldOptsFlag : List Instr := [.xfer 0 0 .move .res, .xfer 1 0 .move .res, .re
 /-- `optional::to_container` before fix 9030486: the element of the source itself went to `container::make`, which moves out of it -/
 def oldOptToContainer (n : Nat) : List Instr := xferAll 0 n .move .res
 
+/-- `parse::repetition_plus` before fix aef45df: `result_type{std::move(first)}` - the first result (here an rvalue argument) went
+through an initializer_list and was copied into the vector; the remaining results were moved -/
+def oldParseRepPlus (n : Nat) : List Instr := .xfer 0 0 .copy .res :: (List.range (n - 1)).map fun j => .xfer 0 (j + 1) .move .res
+
 /-- the outcome of an operation: the machine state after its program -/
 def exec (o : Op) (inp : Input) : St := run (prog o inp) (St.init (inp.args.map (·.2)))
 
@@ -403,7 +745,22 @@ def Op.all : List Op :=
    .varMatch, .varApply, .varApply2, .varToOptional, .tupMap, .tupPushBack, .tupConcat, .arrMap, .arrPushBack, .arrJoin2, .arrJoin3,
    .arrFromRange, .recMap, .recPermute, .recMultiplyDisjoint, .contMake,
    .gridMap, .gridApply2, .gridResize, .treeCtor, .treePushValue, .treePushTree, .treeRelease, .treeMap,
-   .optsFlag, .optsOption, .parseSequence, .parseRepetition]
+   .optsFlag, .optsOption, .parseSequence, .parseRepetition,
+   .tupInvoke, .tupApply2, .tupFromArray, .tupMake2, .tupInit, .arrApply2, .arrInit, .arrMake2, .recCtor2, .recInit,
+   .optMake, .optCtor, .optAssign, .optToException, .optMakeIf, .optMaybe, .optMaybeVoid, .optMaybeMulti2, .optMaybeVoidMulti2,
+   .optCopyValue, .eithMakeSuccess, .eithMakeFailure, .eithCtor, .eithConstruct, .eithTryCall, .eithToException,
+   .eithErrorFromOptional, .eithSequenceError, .eithLoop, .varCtor,
+   .algFindOpt, .algIndexOf, .algContains, .algFindIfOpt, .algFindByOpt, .algGenerateN, .algMapIteration, .algMapIterationSecond,
+   .algSeqIteration, .contInsert, .contSetUnion, .contSetDifference, .contSetIntersection, .contMapValuesCopy, .contAtOptional,
+   .contMaybeBack, .contMaybeFront, .contFindOptMapped, .contIndexMapGet,
+   .treeCtorTree, .treeCtorChildren, .treeAssign, .treeSelfAssign, .treeSetValue, .treePushFrontValue, .treeInsertValue,
+   .treePushFrontTree, .treeInsertTree, .treePopBack, .treePopFront, .treeErase, .treeEraseRange, .treeClear, .treeSort,
+   .gridCtorFn, .gridCtorValue, .gridCtorRows2, .gridStaticRow2, .gridCtorGrid, .gridAssign, .gridSelfAssign, .gridFill,
+   .parseAlt, .parseOpt, .parseConvert, .parseAsStruct, .parseSeparator, .parseList, .parseRepPlus,
+   .optsArgument, .optsOptional, .optsProduct, .optsMany, .optsSum,
+   .treeSwap, .treeSortPred, .joinSelf, .arrJoinSelf, .tupConcatSelf, .optCombineSelf, .algMapList, .algMapArr, .algMapTup,
+   .algLoopBreakTuple, .recSet, .algRemoveIf, .algRemove, .algUnique, .algUniqueIf,
+   .algSeqIterationVec]
 
 def Op.name : Op → String
   | .algMap => "algmap" | .fold => "fold" | .foldBreak => "foldbrk" | .mapConcat => "mapcat" | .mapOptional => "mapopt"
@@ -424,5 +781,36 @@ def Op.name : Op → String
   | .treeCtor => "treector" | .treePushValue => "treepushval" | .treePushTree => "treepushtree" | .treeRelease => "treerelease"
   | .treeMap => "treemap" | .optsFlag => "optsflag" | .optsOption => "optsoption"
   | .parseSequence => "parseseq" | .parseRepetition => "parserep"
+  | .tupInvoke => "tupinvoke" | .tupApply2 => "tupapply2" | .tupFromArray => "tupfromarr" | .tupMake2 => "tupmake2"
+  | .tupInit => "tupinit" | .arrApply2 => "arrapply2" | .arrInit => "arrinit" | .arrMake2 => "arrmake2"
+  | .recCtor2 => "recctor2" | .recInit => "recinit"
+  | .optMake => "optmake" | .optCtor => "optctor" | .optAssign => "optassign" | .optToException => "opttoexc"
+  | .optMakeIf => "optmakeif" | .optMaybe => "optmaybe" | .optMaybeVoid => "optmaybevoid" | .optMaybeMulti2 => "optmaybemulti2"
+  | .optMaybeVoidMulti2 => "optmaybevoidmulti2" | .optCopyValue => "optcopyvalue"
+  | .eithMakeSuccess => "eithmakesucc" | .eithMakeFailure => "eithmakefail" | .eithCtor => "eithctor"
+  | .eithConstruct => "eithconstruct" | .eithTryCall => "eithtrycall" | .eithToException => "eithtoexc"
+  | .eithErrorFromOptional => "eitherrfromopt" | .eithSequenceError => "eithseqerr" | .eithLoop => "eithloop" | .varCtor => "varctor"
+  | .algFindOpt => "algfind" | .algIndexOf => "algindexof" | .algContains => "algcontains" | .algFindIfOpt => "algfindif"
+  | .algFindByOpt => "algfindby" | .algGenerateN => "alggenerate" | .algMapIteration => "algmapiter"
+  | .algMapIterationSecond => "algmapiter2" | .algSeqIteration => "algseqiter"
+  | .contInsert => "continsert" | .contSetUnion => "setunion" | .contSetDifference => "setdiff" | .contSetIntersection => "setinter"
+  | .contMapValuesCopy => "mapvalcopy" | .contAtOptional => "atopt" | .contMaybeBack => "maybeback" | .contMaybeFront => "maybefront"
+  | .contFindOptMapped => "findoptmapped" | .contIndexMapGet => "indexmapget"
+  | .treeCtorTree => "treectortree" | .treeCtorChildren => "treectorchildren" | .treeAssign => "treeassign"
+  | .treeSelfAssign => "treeselfassign" | .treeSetValue => "treesetvalue" | .treePushFrontValue => "treepushfrontval"
+  | .treeInsertValue => "treeinsertval" | .treePushFrontTree => "treepushfronttree" | .treeInsertTree => "treeinserttree"
+  | .treePopBack => "treepopback" | .treePopFront => "treepopfront" | .treeErase => "treeerase" | .treeEraseRange => "treeeraserange"
+  | .treeClear => "treeclear" | .treeSort => "treesort"
+  | .gridCtorFn => "gridctorfn" | .gridCtorValue => "gridctorvalue" | .gridCtorRows2 => "gridctorrows2" | .gridStaticRow2 => "gridstaticrow2"
+  | .gridCtorGrid => "gridctorgrid" | .gridAssign => "gridassign" | .gridSelfAssign => "gridselfassign" | .gridFill => "gridfill"
+  | .parseAlt => "parsealt" | .parseOpt => "parseopt" | .parseConvert => "parseconv" | .parseAsStruct => "parsestruct"
+  | .parseSeparator => "parsesep" | .parseList => "parselist" | .parseRepPlus => "parserepplus"
+  | .optsArgument => "optsarg" | .optsOptional => "optsoptional" | .optsProduct => "optsproduct" | .optsMany => "optsmany"
+  | .optsSum => "optssum"
+  | .treeSwap => "treeswap" | .treeSortPred => "treesortpred" | .joinSelf => "joinself" | .arrJoinSelf => "arrjoinself"
+  | .tupConcatSelf => "tupconcatself" | .optCombineSelf => "optcombineself" | .algMapList => "algmaplist" | .algMapArr => "algmaparr"
+  | .algMapTup => "algmaptup" | .algLoopBreakTuple => "algloopbrktup" | .recSet => "recset"
+  | .algRemoveIf => "algremoveif" | .algRemove => "algremove" | .algUnique => "algunique" | .algUniqueIf => "alguniqueif"
+  | .algSeqIterationVec => "algseqitervec"
 
 end Fcppt.C05
